@@ -291,5 +291,74 @@ def _post_ret(engine, st, ctx, out):
 UNITS += [
     Unit("f_return", "futures.base.f_return", ["C02", "C13", "C15", "C03", "C20"], _setup_ret("value"), _post_ret, cfg=_cfg_ret),
     Unit("f_return_error", "futures.base.f_return_error", ["C02", "C13", "C03", "C20"], _setup_ret("error"), _post_ret, cfg=_cfg_ret),
-    Unit("f_return_cancelled", "futures.base.f_return_cancelled", ["C02", "C03", "C20"], _setup_ret("cancelled"), _post_ret, cfg=_cfg_ret),
+    Unit("f_return_cancelled", "futures.base.f_return_cancelled", ["C02", "C03", "C20", "C13"], _setup_ret("cancelled"), _post_ret, cfg=_cfg_ret),
 ]
+
+
+# ---- timeout_executor(): the process-wide executor behind f_timeout, kept by a WEAK reference only (C09, C12) -------------------------
+def _cfg_texec(variant):
+    def mk():
+        cfg = make_cfg(concurrent=False)       # the whole body runs under the module's LOCK (static region f_timeout.LOCK)
+        cfg.contracts["more_executors._impl.executors.Executors.sync"] = RecordCall(ret_fn=lambda e, s: sym_val(e, s, "executor", "sync_base"))
+
+        def lock_val(engine, st):
+            t = ref(700000 + STRINGS.get("f_timeout.LOCK"))
+            return Z(t, "lock")
+        cfg.global_types[(FT, "LOCK")] = lock_val
+
+        def ref_val(engine, st):
+            if variant == "none yet":
+                return None
+            w = sym_val(engine, st, ("weakref", INST("TimeoutExecutor")), "EXECUTOR_REF")
+            engine.cfg.texec_ref = w
+            return w
+        cfg.global_types[(FT, "EXECUTOR_REF")] = ref_val
+        return cfg
+    return mk
+
+
+def _setup_texec(engine, st):
+    return [], {}, {}
+
+
+def _post_texec(variant):
+    def post(engine, st, ctx, out):
+        cl = [("timeout_executor() does not raise by itself", "EX", not isinstance(out, Raise) or any(e.kind == "call" and getattr(e, "exc", None) is not None for e in st.trace), ["C09", "C18"])]
+        if isinstance(out, Raise):
+            return cl
+        base = [e for e in st.trace if e.kind == "repo-call" and e.meth.endswith("Executors.sync")]
+        chain = [e for e in st.trace if e.kind == "call" and e.meth in ("with_flat_map", "with_timeout")]
+        wrefs = [e for e in st.trace if e.kind == "weakref-callback" or e.kind == "weakref"]
+        g = st.globals.get((FT, "EXECUTOR_REF"))
+        ov = engine.to_val(st, out)
+        if base:
+            ok = len(base) == 1 and [e.meth for e in chain] == ["with_flat_map", "with_timeout"]
+            cl.append(("a new shared executor is sync -> flat_map(identity) -> timeout(None): the submitted `lambda: future` is flattened into the caller's future, "
+                       "and there is no default deadline (f_timeout always passes its own)", "PC",
+                       z3.And(z3.BoolVal(ok), chain[0].recv == Val.id(base[0].ret) if ok else False, chain[1].recv == Val.id(chain[0].ret) if ok else False,
+                              z3.BoolVal(ok and len(chain[1].args) == 1 and not chain[1].kwargs), Val.is_none(chain[1].args[0]) if ok and chain[1].args else False,
+                              ov == chain[1].ret if ok else False), ["C09"]))
+            if ok:
+                fnv = engine.resolve(st, Z(chain[0].args[0], None)) if chain[0].args else None
+                x = sym_val(engine, st, "any", "x")
+                fr = Frame(None, engine.repo.func("futures.timeout.timeout_executor").module, st.new_env(None), None, 0)
+                n = 0
+                if fnv is not None:
+                    for s2, r2 in engine.call(st.copy(), fr, fnv, [x], {}, None, None, None):
+                        n += 1
+                        cl.append(("... the flat-map function is the identity", "PC", (engine.to_val(s2, r2) == x.t) if not isinstance(r2, Raise) else z3.BoolVal(False), ["C09"], s2))
+                cl.append(("... and total", "PC", z3.BoolVal(n == 1), ["C09"]))
+            gz = engine.resolve(st, g) if g is not None else None
+            cl.append(("the module remembers the new executor by a WEAK reference only (dropped executors and their threads are reclaimed)", "PC",
+                       z3.And(z3.BoolVal(isinstance(gz, Z) and isinstance(gz.ty, tuple) and gz.ty[0] == "weakref"),
+                              st.get("$referent", Val.id(gz.t)) == ov if isinstance(gz, Z) else False), ["C12", "C09"]))
+        else:
+            w = getattr(engine.cfg, "texec_ref", None)
+            cl.append(("an executor that is still alive is reused: what is returned is the referent of the remembered weak reference, and nothing is created", "PC",
+                       z3.And(z3.BoolVal(w is not None and not chain and g is None), ov == st.get("$referent", Val.id(w.t)) if w is not None else False, z3.Not(Val.is_none(ov))), ["C09", "C12"]))
+        return cl
+    return post
+
+
+for _v in ("none yet", "remembered"):
+    UNITS.append(Unit("timeout_executor[%s]" % _v, "futures.timeout.timeout_executor", ["C09", "C12", "C18"], _setup_texec, _post_texec(_v), cfg=_cfg_texec(_v)))
